@@ -110,20 +110,26 @@ def replay(c, out, fmt, int_dtype=False):
     return errs
 
 
+def _job(args):
+    si, c, out = args
+    try:
+        return si, replay(c, out, ("coo", "csr", "csc")[si % 3], int_dtype=(si % 5 == 0))
+    except Exception as e:  # noqa
+        return si, ["exception:" + type(e).__name__]
+
+
 def main():
     chk = Check("C04")
     states = chk.mc_dump("TransformFn_full.cfg" if chk.thorough else "TransformFn_q.cfg", "TransformFnMC.tla")
     if states is not None:
         fmts = ("coo", "csr", "csc")
         stride = 1 if chk.thorough else 4
-        for si, st in enumerate(states):
-            if ((si * 2654435761 >> 8) + chk.seed) % stride:      # scattered, not periodic: the enumeration order is structured
-                continue
-            c, out = st["c"], st["out"]
-            try:
-                errs = replay(c, out, fmts[si % 3], int_dtype=(si % 5 == 0))
-            except Exception as e:  # noqa
-                errs = ["exception:" + type(e).__name__]
+        # scattered, not periodic sample in the quick tier: the enumeration order is structured
+        todo = [(si, st["c"], st["out"]) for si, st in enumerate(states) if not ((si * 2654435761 >> 8) + chk.seed) % stride]
+        import multiprocessing as mp
+        with mp.get_context("fork").Pool(14) as pool:
+            results = pool.map(_job, todo, chunksize=400)
+        for (si, c, out), (_, errs) in zip(todo, results):
             chk.case(si)
             if len(chk.samples) < 2 and si % 1201 == 0:
                 chk.samples.append({"case": _plain(c), "expected": _plain(out)})
